@@ -443,7 +443,10 @@ func topFrameAfterPanic(st string) string {
 		if !seenPanic {
 			continue
 		}
-		if strings.HasPrefix(l, "runtime.") || strings.HasPrefix(l, "runtime/") || strings.HasPrefix(l, "internal/") {
+		// the first frame that belongs to the repository or to the harness decides; frames of
+		// the standard library and of third-party modules in between (encoding/binary, bytes, …)
+		// are skipped
+		if !strings.Contains(l, "github.com/database64128/shadowsocks-go") && !strings.HasPrefix(l, "verifsim/") {
 			continue
 		}
 		if i := strings.LastIndex(l, "("); i > 0 {
